@@ -25,8 +25,8 @@ const hMaxVCs = 3
 type hSubjectSlot struct{ i int }
 
 type hVPWorld struct {
-	// credentialSubject of credential i: 0 = one subject with id did:web:<subjectByte>, 1 = subject without id,
-	// 2 = two subjects with different ids, 3 = id that is not a DID
+	// credentialSubject of credential i: 0 = subject(s) with the one id did:web:<subjectByte>; 1 = SubjectDID fails
+	// (no subject, no id, differing ids, or an id that is not a DID - indistinguishable for the caller)
 	subjectKind [hMaxVCs]int
 	subjectByte [hMaxVCs]byte
 	subjectSeen [hMaxVCs]bool
@@ -48,7 +48,7 @@ func hNewVPWorld() *hVPWorld {
 	v := &hVPWorld{}
 	for i := 0; i < hMaxVCs; i++ {
 		vTag("subject.kind")
-		v.subjectKind[i] = vRange(0, 3)
+		v.subjectKind[i] = vRange(0, 1)
 		vTag("subject.did")
 		v.subjectByte[i] = hLowerByte()
 		vTag("vc.valid")
@@ -73,16 +73,11 @@ func hWebDID(b byte) did.DID {
 func (w *hWorld) subjectOf(i int) (*did.DID, error) {
 	v := hVP
 	v.subjectSeen[i] = true
-	switch vConc(v.subjectKind[i]) {
-	case 0:
+	if vConc(v.subjectKind[i]) == 0 {
 		d := hWebDID(v.subjectByte[i])
 		return &d, nil
-	case 1:
-		return nil, errors.New("unable to get subject DID from VC: credential subjects have no ID")
-	case 2:
-		return nil, errors.New("unable to get subject DID from VC: credential subjects have the same ID")
 	}
-	return nil, errors.New("unable to get subject DID from VC: invalid DID")
+	return nil, errors.New("unable to get subject DID from VC: credential subjects have no ID")
 }
 
 type hVCVerifier struct {
@@ -173,6 +168,10 @@ func H01c() {
 		at = ai
 	}
 
+	if vParam("proofexp", 1) == 0 {
+		vAssume(!w.proofHasExpires)
+	}
+
 	sut := hNewVerifier(w, nil)
 	got, err := sut.doVerifyVP(hVCVerifier{v: v}, vp, verifyVCs, allowUntrusted, validAt)
 
@@ -246,9 +245,7 @@ func H01c() {
 	valid := hAnd(signedByKnownParty, sigOK)
 	for i := 0; i < n; i++ {
 		valid = hAll(valid, signedByA, v.subjectKind[i] == 0, v.subjectByte[i] == 'a')
-		if verifyVCs {
-			valid = hAnd(valid, v.vcOK[i])
-		}
+		valid = hAnd(valid, hOr(!verifyVCs, v.vcOK[i]))
 	}
 	if n > 0 && hasHolder {
 		valid = hAnd(valid, holderByte == 'a')
